@@ -106,6 +106,8 @@ def equal(case, a, b):
     if "build_exc" in a or "build_exc" in b:
         return a.get("build_exc") == b.get("build_exc")
     if b.get("spec"):
+        if len(a["q"]) != len(case["queries"]) or len(b["q"]) != len(case["queries"]):
+            return False                  # one answer per query on both sides
         for q, x, y in zip(case["queries"], a["q"], b["q"]):
             if q[0] == "phrase":
                 if not c03._phrase_ok(x, y):
